@@ -39,7 +39,7 @@ func (g *Gen) emit(line string) string {
 	ans := g.emit1(line)
 	// after every mutating op the full observation is compared with the model
 	switch strings.Fields(line)[0] {
-	case "dotx", "play", "playminer", "walk", "reopen", "race2", "balrace", "selrace":
+	case "dotx", "play", "playminer", "walk", "walktrace", "reopen", "race2", "balrace", "selrace":
 		g.emit1("obs")
 	case "confirm", "truncate":
 		g.emit1("ledger")
@@ -545,7 +545,11 @@ func (g *Gen) scenario(p *Profile) {
 		case "walk":
 			cl := g.confirmedList()
 			b := cl[g.r.Intn(len(cl))]
-			g.emit(fmt.Sprintf("walk %d", b))
+			if e.prop == "C06" && g.r.Chance(1, 2) {
+				g.emit(fmt.Sprintf("walktrace %d", b))
+			} else {
+				g.emit(fmt.Sprintf("walk %d", b))
+			}
 		case "walk-prune":
 			cl := g.confirmedList()
 			b := cl[g.r.Intn(len(cl))]
